@@ -2179,3 +2179,20 @@ M('c12-twin-listener-spawned-by-helper', 'C12', 'silent',
    """        gevent.spawn(self._wait_store)""",
    """        listener = gevent.spawn(self._wait_store)
         del listener""", 1))
+
+# ---------------------------------------------------------------- D34 (C11)
+M('c11-relay-error-decodes-str-command', 'C11', 'fire:N15',
+  ('slimta/relay/smtp/__init__.py',
+   """        if isinstance(command, bytes):
+            # The HTTP relay names the command with a string.
+            command = command.decode('ascii')
+        msg = '{0} failure on {1}: {2}'.format(type, command, str(reply))""",
+   """        msg = '{0} failure on {1}: {2}'.format(
+            type, command.decode('ascii'), str(reply))""", 1))
+M('c11-twin-relay-error-str-first', 'C11', 'silent',
+  ('slimta/relay/smtp/__init__.py',
+   """        if isinstance(command, bytes):
+            # The HTTP relay names the command with a string.
+            command = command.decode('ascii')""",
+   """        if not isinstance(command, str):
+            command = command.decode('ascii')""", 1))
